@@ -10,6 +10,7 @@
 package sym
 
 import (
+	"go/token"
 	"fmt"
 	"go/types"
 	"strconv"
@@ -90,7 +91,10 @@ func (ex *Exec) sliceTerms(v Value) []*Term {
 		}
 		n, ok := ex.constOf(s.Len)
 		if !ok {
-			panic(unsupported("ideal primitive applied to a byte string of symbolic length"))
+			// a length the path condition confines to a few values (a buffer
+			// sized from a wire field that was then filled completely): one
+			// path per value; anything wider stays unsupported
+			n = ex.concretizeN(s.Len, "length of a byte string given to an ideal primitive", 80)
 		}
 		out := make([]*Term, n)
 		for i := int64(0); i < n; i++ {
@@ -525,7 +529,7 @@ func (ex *Exec) aeadSeal(key []*Term, dst Value, nonce, pt, ad Value, who string
 		if e.id == len(st.seals) {
 			st.seals = append(st.seals, e)
 		}
-		return ex.termsSlice(ex.appBytes(a, 0, int(n)+16))
+		return ex.intoDst(dst, ex.termsSlice(ex.appBytes(a, 0, int(n)+16)))
 	}
 	// symbolic length: functional ciphertext stream
 	st.fresh++
@@ -540,7 +544,28 @@ func (ex *Exec) aeadSeal(key []*Term, dst Value, nonce, pt, ad Value, who string
 	ln := c.Bin(OAdd, ps.Len, ex.i64(16))
 	arr := ex.newSym(types.Typ[types.Uint8], ln, symBase{name: e.name})
 	c.UF(e.name, BV(8), ex.i64(0))
-	return Slice{Arr: arr, Off: ex.i64(0), Len: ln, Cap: ln}
+	return ex.intoDst(dst, Slice{Arr: arr, Off: ex.i64(0), Len: ln, Cap: ln})
+}
+
+// intoDst gives Seal/Open the aliasing behaviour of the real AEAD, which
+// appends its output to dst: a non-nil (empty) dst whose capacity suffices
+// receives the output in its own backing array - Seal(plaintext[:0], ...,
+// plaintext, ...) overwrites the plaintext the caller still holds.
+func (ex *Exec) intoDst(dst Value, res Slice) Slice {
+	d, ok := dst.(Slice)
+	if !ok || d.Arr == nil || res.Arr == nil {
+		return res
+	}
+	if k, okc := ex.constOf(d.Len); !okc || k != 0 {
+		panic(unsupported("AEAD with a non-empty destination prefix"))
+	}
+	rl := res.lenOr0(ex)
+	fits := ex.C.Cmp(OSle, rl, d.capOr0(ex))
+	if !ex.branch(fits, token.NoPos) {
+		return res
+	}
+	ex.copyElems(d.Arr, d.Off, res.Arr, res.Off, rl)
+	return Slice{Arr: d.Arr, Off: d.Off, Len: rl, Cap: d.Cap}
 }
 
 // aeadOpen: returns (plaintext slice, error).
@@ -587,13 +612,13 @@ func (ex *Exec) aeadOpen(key []*Term, dst Value, nonce, ct, ad Value, cs *callSi
 			if e.ptSym != nil {
 				arr := ex.newSym(types.Typ[types.Uint8], e.ptLen, symZero{})
 				arr.Content = &symCopy{prev: symZero{}, doff: ex.i64(0), src: e.ptSym, soff: e.ptOff, n: e.ptLen}
-				return Tuple{Slice{Arr: arr, Off: ex.i64(0), Len: e.ptLen, Cap: e.ptLen}, Iface{}}
+				return Tuple{ex.intoDst(dst, Slice{Arr: arr, Off: ex.i64(0), Len: e.ptLen, Cap: e.ptLen}), Iface{}}
 			}
 			if len(e.ptDense) == 0 {
 				// Open returns a non-nil empty slice only if dst was non-nil; nil here
 				return Tuple{Slice{}, Iface{}}
 			}
-			return Tuple{ex.termsSlice(append([]*Term(nil), e.ptDense...)), Iface{}}
+			return Tuple{ex.intoDst(dst, ex.termsSlice(append([]*Term(nil), e.ptDense...))), Iface{}}
 		}
 	}
 	return Tuple{Slice{}, ex.errAuth()}
